@@ -43,7 +43,7 @@ SPEC = {
     "nontrivial": nontrivial,
     "coverage_extra": coverage_extra,
     "rule": "sequence = reset + one random cluster (max-replicas 1-5, 0-2 location labels, placement rules on/off, "
-            "joint consensus on/off, reject-leader property; max-replicas+1 .. 10 stores, a third of them offline / "
+            "joint consensus on/off, reject-leader property with 0-3 entries – same key with different values and different keys, so that stores match only a later entry; max-replicas+1 .. 10 stores, a third of them offline / "
             "down / disconnected / busy / with snapshots in flight or pending peers in two thirds of the clusters, optional TiFlash stores with a learner rule, "
             "zone/host labels, region counts and sizes; with placement rules either a TiFlash learner rule or an "
             "unconstrained learner rule, i.e. regions with a learner on an ordinary store) + 2-6 fully replicated "
